@@ -36,13 +36,22 @@ RULE = (
     "every tile border segment, four-tile corner and outer limit is enumerated "
     "with aligned / unaligned / thin rectangles; all 27 tiles are enumerated "
     "for bounds -> grids; cache histories are lists of get_tile / evict / "
-    "elevation operations against a warm or cold temporary cache directory. "
+    "elevation operations against a warm or cold temporary cache directory; "
+    "result histories are 2-4 requests (elevation / get_native_grids / "
+    "get_grids; same, shifted by <= 3 cells, or another rectangle) after each "
+    "of which the harness overwrites the returned arrays in place (+360, "
+    "colatitude, zero, reverse, NaN) and requires results of different calls "
+    "not to share memory; download-fault histories run the real "
+    "download_tile against a harness urlopen serving zip archives, with "
+    "generated transfers that break off after n bytes, followed by retries. "
     "Oracle = exact rational cell arithmetic on the float inputs and a "
     "synthetic tile whose pixels encode their global row and column.  "
     "Non-trivial = rectangle not aligned with the grid or crossing a tile "
     "border (rectangles); every tile (tile suite); a history with at least "
-    "one cached and one missing request (cache).  Distinct = distinct case "
-    "hash."
+    "one cached and one missing request (cache); a later request checked "
+    "after an in-place edit (results); a request that succeeds after a "
+    "broken transfer of the same tile (download faults).  Distinct = "
+    "distinct case hash."
 )
 ASSUMPTIONS = [
     "rectangles satisfy -60 <= lat_min < lat_max <= 90, -180 <= lon_min < "
@@ -55,6 +64,12 @@ ASSUMPTIONS = [
     "SRTM30.get_tile is replaced by a lazy object that answers boolean-mask "
     "indexing (any other use materialises a real array); tiles of the table "
     "are all 6000 x 4800 (50 x 40 degrees)",
+    "download faults: urllib.request.urlopen is replaced by a harness "
+    "function; how a broken transfer surfaces is not prescribed (the "
+    "injected ConnectionResetError or an internal retry are both accepted), "
+    "only that cached tiles are never transferred, that a tile without "
+    ".DEM in the directory is delivered correctly by the next undisturbed "
+    "request, and that an intact left-over archive may be reused",
     "cache: the directory is typhon.topography._data_path set directly, or "
     "resolved by _get_data_path from TYPHON_DATA_PATH / XDG_CACHE_HOME "
     "pointing into the temporary directory",
